@@ -21,7 +21,7 @@ CHECKS = {
          "DESIGN.md §3 C19"),
  "C01": ("exploration",
          "bounded-exhaustive enumeration of control code points x encodings x carriers x sinks x widths against a terminal-safety oracle",
-         "8 structurally distinct control characters (quick) / all 64 C0, DEL and C1 code points except newline (thorough), each followed by a tell-tale SGR parameter servitor never emits, in 7 markup encodings, plus field shapes string / list / object / hostile key / entity / percent-encoded in the host and in the path, query and fragment of a URL inside 32 markup carriers of the four media types, in every string field of actors, posts, activities and their nested links (with and without a name, so that the address itself is displayed), authors and collections (as string, list, object, key, entity), at 13 positions of raw HTTP responses quoted in error items, and in UI frames (normal, selection, opening, problem, command footers); sinks Markup.Render, String, Preview, Name at widths 1,2,7,80,81: after removing exactly the SGR sequences servitor generates no control character other than newline remains.",
+         "8 structurally distinct control characters (quick) / all 64 C0, DEL and C1 code points except newline (thorough), each followed by a tell-tale SGR parameter servitor never emits, in 7 markup encodings inside 37 markup carriers (incl. positions after several closing tags in a row and deep nesting), plus field shapes string / list / object / hostile key / entity / percent-encoded in the host and in the path, query and fragment of a URL in every string field of actors, posts, activities and their nested links (with and without a name, so that the address itself is displayed), authors and collections (as string, list, object, key, entity), at 13 positions of raw HTTP responses quoted in error items, and in UI frames (normal, selection, opening, problem, command footers); sinks Markup.Render, String, Preview, Name at widths 1,2,7,80,81: after removing exactly the SGR sequences servitor generates no control character other than newline remains.",
          "Trusted: lib/oracle tokenizer and palette (the four configured colours); Env-B peer for raw responses; combinations of two atoms in one document are not enumerated.",
          "DESIGN.md §3 C01"),
  "C06": ("exploration",
